@@ -716,6 +716,9 @@ func runFrame(fr *frame) {
 		fr.panic = p
 		if fr.g != nil && fr.g.panicOrigin == "" {
 			fr.g.panicOrigin = fr.fn.String()
+			if os.Getenv("GOSYM_PANICLOG") != "" {
+				fmt.Fprintf(os.Stderr, "PANIC %v in %s%s\n", p, fr.fn.String(), fr.i.where())
+			}
 		}
 		if fr.i.w.Trace {
 			fmt.Fprintf(os.Stderr, "Panicking in %s: %T %v.\n", fr.fn, fr.panic, fr.panic)
